@@ -903,6 +903,45 @@ func (e *Eval) atGhost(fr *Frame, cc *ssa.CallCommon, name, site string, args []
 		for i := 0; i < sig.Params().Len() && off+i < len(args); i++ {
 			env.bind(fmt.Sprintf("arg%d", i), args[off+i], sig.Params().At(i).Type())
 		}
+		if strings.HasPrefix(at.Clause.Text, "interfere[") {
+			// interfere[Cxx,..] <frame> preserving <pred>: before this call
+			// (a lock acquisition) other requests may have changed <frame>,
+			// leaving <pred> true. Only for the listed properties: the
+			// sequential postconditions of the other properties are stated
+			// for an invocation running alone.
+			t := at.Clause.Text[len("interfere["):]
+			ci := strings.Index(t, "]")
+			if ci < 0 {
+				e.c.Unsupported("bad interfere directive: %s", at.Clause.Text)
+				continue
+			}
+			on := false
+			for _, pp := range strings.Split(t[:ci], ",") {
+				if strings.TrimSpace(pp) == currentProp {
+					on = true
+				}
+			}
+			if !on {
+				continue
+			}
+			body := strings.TrimSpace(t[ci+1:])
+			frame, pred := body, ""
+			if pi := strings.Index(body, " preserving "); pi >= 0 {
+				frame, pred = strings.TrimSpace(body[:pi]), strings.TrimSpace(body[pi+len(" preserving "):])
+			}
+			e.havocFrame(&Contract{Modifies: splitTop(frame, ','), HasModifies: true}, env, st, st)
+			if pred != "" {
+				ex, err := ParseSpecExpr(pred)
+				if err != nil {
+					e.c.Unsupported("%v", err)
+					continue
+				}
+				env.st = st
+				e.c.Assert(implies(cur, env.evalBool(ex)))
+			}
+			e.c.Assume("interference before " + name + " in " + e.rootKey + ": " + body)
+			continue
+		}
 		e.applyGhost(&Contract{Ghost: []string{at.Clause.Text}}, env, st, st, cur, site)
 		e.c.Assume("ghost step before " + name + " in " + e.rootKey + ": " + at.Clause.Text)
 	}
